@@ -1,6 +1,6 @@
 #!/usr/bin/env python3
-"""tools/benigneval.py [--confirm-only | --check-only] C03 [C04 ...]
-Take the behaviour-preserving refactorings sub-agents left in /tmp/mut/<prop>/BENIGN/<n>/ (patch.diff, demo.sh, meta.json).
+"""tools/benigneval.py [--confirm-only | --check-only] [--base /tmp/mut] [--nums 4,5,6] C03 [C04 ...]
+Take the behaviour-preserving refactorings sub-agents left in <base>/<prop>/BENIGN/<n>/ (patch.diff, demo.sh, meta.json).
 Stage 1 (--confirm-only; one process per property may run in parallel, only the scratch worktree is touched): re-confirm each
 one there - it builds, the 72 tests pass, its sanity demonstration passes with and without the patch - and leave confirmed.json.
 Stage 2 (--check-only; serial, each confirmed patch is applied to /repo in turn by tools/seedrun.py and reverted): run all 20
@@ -18,10 +18,18 @@ def sh(cmd, cwd=None, timeout=1800):
 def main():
     confirm_only = "--confirm-only" in sys.argv
     check_only = "--check-only" in sys.argv
-    for prop in [a for a in sys.argv[1:] if a.startswith("C")]:
-        wt = "/tmp/mut/%s" % prop
+    base, nums = "/tmp/mut", None
+    for i, a in enumerate(sys.argv):
+        if a == "--base":
+            base = sys.argv[i + 1]
+        if a == "--nums":
+            nums = set(sys.argv[i + 1].split(","))
+    for prop in [a for a in sys.argv[1:] if a.startswith("C") and len(a) == 3]:
+        wt = os.path.join(base, prop)
         bdir = os.path.join(wt, "BENIGN")
         for n in sorted(os.listdir(bdir)) if os.path.isdir(bdir) else []:
+            if nums and n not in nums:
+                continue
             md = os.path.join(bdir, n)
             patch = os.path.join(md, "patch.diff")
             if not os.path.exists(patch):
